@@ -253,6 +253,31 @@ func PoolBad(r io.Reader) ([]byte, error) {
 	return (*bp)[:n], nil
 }
 
+// flag-carried feasibility: the use is reachable only with found == true
+func FlagGood(m map[string]*hello, k string) int {
+	h, found := m[k]
+	if found && h.ID < 0 {
+		found = false
+	}
+	if !found {
+		return 0
+	}
+	return use(h)
+}
+
+func FlagBad(m map[string]*hello, k string) int {
+	h, found := m[k]
+	if found && h.ID < 0 {
+		found = false
+	}
+	if found {
+		return 0
+	}
+	return use(h)
+}
+
+func use(h *hello) int { return h.ID }
+
 func AtLeastGood(r io.Reader, n int) ([]byte, error) {
 	buf := make([]byte, n)
 	_, err := io.ReadAtLeast(r, buf, len(buf))
